@@ -6,7 +6,8 @@ is that of a constant of the function or of an instruction currently in the func
 name blocks of the same function (both targets when conditional); calls name a function of the
 linked program with the same argument count; an instruction whose opcode is a store still carries the
 value it stores and a return of a non-void function its value (an optimisation that drops the operand but
-keeps the opcode leaves something the VM cannot execute); every use is dominated by a definition on every
+keeps the opcode leaves something the VM cannot execute - a bare `return;` the front end lets through in such a
+function is not that: the caller of check_module filters returns that have no value in the unoptimised module either); every use is dominated by a definition on every
 path (forward must-analysis to the greatest fixpoint over the instruction-level CFG the VM
 executes: blocks laid out in order, fall-through between blocks, branch/return as the only
 control transfers).
@@ -53,7 +54,7 @@ def check_function(fn, program, L, unknown_classes=None):
     P = []
 
     def prob(kind, where, detail):
-        P.append({"kind": kind, "where": where, "detail": f"{fn.Name}: {detail}"})
+        P.append({"kind": kind, "where": where, "function": fn.Name, "detail": f"{fn.Name}: {detail}"})
 
     blocks = list(fn.BasicBlocks)
     consts = list(fn.Constants)
